@@ -240,7 +240,10 @@ tagspec(struct scope *s)
 		break;
 	case TYPEENUM:
 		enumconsts = NULL;
-		if (et) {
+		if (!t->base)
+			t->base = et;
+		if (t->base) {
+			/* fixed underlying type, given here or by an earlier declaration of the tag */
 			t->size = t->base->size;
 			t->align = t->base->align;
 			t->u.basic.issigned = t->base->u.basic.issigned;
